@@ -56,6 +56,8 @@ def rule_r1(ctx):
     rr.exhaustive = True
     rr.floor = 13
     entry = ctx.tmpl.pending_by_kind("AugAssign")
+    if not entry.paths:
+        raise AnalysisError("C13-R1: the AugAssign template could not be extracted: nothing is concluded about the in-place methods")
     used: dict[str, set] = {}
     aborted: dict[str, str] = {}
     for pr in entry.paths:
